@@ -932,6 +932,9 @@ func (c *Ctx) paramNonEmpty(prm *ssa.Parameter) bool {
 				return false
 			}
 			cc := e.Site.Common()
+			if cc.StaticCallee() == nil && !cc.IsInvoke() && !c.addressTaken()[fn] {
+				continue
+			}
 			if cc.StaticCallee() != fn || idx >= len(cc.Args) {
 				return false
 			}
